@@ -307,9 +307,11 @@ func c10family2(c *c10ctx, chunk int) {
 	w64, _ := c10patterns()
 	evals := 0
 	if chunk == 0 {
-		// exhaustive: 4 feature types x 2^13 namespaces, and back from every
+		// exhaustive: 7 type codes (4 geometric feature types, invalid, collection, expression) x 2^13 namespaces, and back from every
 		// 16-bit word whose type field names a feature type
-		for t := b6.FeatureTypeBegin; t < b6.FeatureTypeEnd; t++ {
+		// (collections and expressions are numbered after FeatureTypeInvalid = FeatureTypeEnd:
+		// relations and collections refer to them, so their ids are packed too)
+		for t := b6.FeatureTypeBegin; t <= b6.FeatureTypeExpression; t++ {
 			for ns := 0; ns < 1<<13; ns++ {
 				tn := compact.CombineTypeAndNamespace(t, compact.Namespace(ns))
 				gt, gns := tn.Split()
@@ -321,7 +323,7 @@ func c10family2(c *c10ctx, chunk int) {
 		}
 		for w := 0; w < 1<<16; w++ {
 			t, ns := compact.TypeAndNamespace(w).Split()
-			if t >= b6.FeatureTypeEnd {
+			if t > b6.FeatureTypeExpression {
 				continue
 			}
 			evals++
